@@ -133,13 +133,22 @@ func longUptime(r *Rng, p *Plan, u *Universe) {
 	var pts []*Point
 	elapsed := int64(0)
 	add := func(o Op) { ops = append(ops, o); elapsed += o.Dt }
-	for i := 0; i < r.Range(1, 4); i++ {
-		add(Op{K: "adv", Dt: int64(time.Second)})
-		pt := genPoint(r, u, p.Tables, PointOpts{SpanNanos: int64(time.Second), Anchor: elapsed, Streams: streams, NoOdd: true}, pts, i)
-		pts = append(pts, pt)
-		add(Op{K: "ins", Dt: 1000, P: pt})
+	// half of the time nothing is ever flushed before the kill (tables that
+	// only flush when forced): the table has no persisted offset at all then
+	neverFlushed := r.Bool(0.5)
+	if neverFlushed {
+		for i := range p.Tables {
+			p.Tables[i].MinFlush, p.Tables[i].MaxFlush = int64(time.Hour), int64(1000*time.Hour)
+		}
+	} else {
+		for i := 0; i < r.Range(1, 4); i++ {
+			add(Op{K: "adv", Dt: int64(time.Second)})
+			pt := genPoint(r, u, p.Tables, PointOpts{SpanNanos: int64(time.Second), Anchor: elapsed, Streams: streams, NoOdd: true}, pts, i)
+			pts = append(pts, pt)
+			add(Op{K: "ins", Dt: 1000, P: pt})
+		}
+		add(Op{K: "flush", Dt: int64(100 * time.Millisecond)})
 	}
-	add(Op{K: "flush", Dt: int64(100 * time.Millisecond)})
 	idle := ret + ret/2 + int64(20*time.Second)
 	for idle > 0 {
 		add(Op{K: "adv", Dt: int64(30 * time.Second)})
@@ -150,7 +159,11 @@ func longUptime(r *Rng, p *Plan, u *Universe) {
 		pts = append(pts, pt)
 		add(Op{K: "ins", Dt: PickOne(r, []int64{1000, int64(70 * time.Millisecond)}), P: pt})
 	}
-	switch r.Intn(3) {
+	fate := r.Intn(3)
+	if neverFlushed {
+		fate = 0
+	}
+	switch fate {
 	case 0:
 		add(Op{K: "crash_now", Dt: PickOne(r, []int64{1000, int64(70 * time.Millisecond)})})
 	case 1:
